@@ -509,6 +509,102 @@ def glueClause (bottom : Bottom) (levels : List Level) (events : List Event) : S
 def glueSpec (bottom : Bottom) (levels : List Level) (events : List Event) : Bool :=
   glueClause bottom levels events == "ok"
 
+/-! ### later retrievals of the error of a chain that already failed (round 5: second / third consumer of one task)
+
+The exception object stored on a failed task is handed to EVERY consumer of that task; each synchronous consumer
+(`task.value()`, `task()`, `task.raise_if_error()`, a later task that awaits / calls the finished task) raises the SAME
+object again, and raising mutates its `__traceback__`.  futures.py `raise_if_error` therefore goes through
+qcore `reraise`, which resets `__traceback__` to the glued `_traceback` before every raise (`reraise` above). -/
+
+/-- what a later consumer does with the (outermost) failed task -/
+inductive Retrieval where
+  | direct                  -- the synchronous caller asks the same task again
+  | viaTask (aw : Await)    -- a NEW task awaits (`yield task`) / calls (`task.value()` in its body) the failed task and
+                            -- lets the error pass; the caller calls that new task, which is the outermost task from now on
+  deriving Repr, DecidableEq, Inhabited
+
+/-- level number (frame token) of the task created by the `i`-th later retrieval -/
+def againLv (i : Nat) : Nat := 100 + i
+
+/-- the exception OBJECT after a synchronous caller caught it: `__traceback__` is now what that caller saw
+    (`callerView e = (seen e).cur`), `_traceback` / `_task` / `_type_` are untouched -/
+def seen (e : Err) : Err := unwind [.caller, .lib .call] (valueRaises e)
+
+/-- the error stored on the task the `i`-th later retrieval asks; `e` = the object as the previous consumer left it -/
+def retrieveErr (rule : FrameRule) (i : Nat) (r : Retrieval) (e : Err) : Err :=
+  match r with
+  | .direct => e            -- the same task, the same stored object
+  | .viaTask aw =>
+    -- the body of the new task: `yield task` / `task.value()`; no handler; `_accept_error` of the new task glues
+    let (e3, slot) := arrive aw (againLv i) false e
+    (escape rule slot e3).1
+
+/-- the results of the later retrievals, each as the synchronous caller catches it -/
+def retrievals (rule : FrameRule) : Nat → Err → List Retrieval → List Event
+  | _, _, [] => []
+  | i, e, r :: rs =>
+    let e' := retrieveErr rule i r e
+    resultEvent (some e') :: retrievals rule (i + 1) (seen e') rs
+
+/-- a chain followed by later retrievals (made after the orphans ran) -/
+def runTopAgain (rule : FrameRule) (bottom : Bottom) (levels : List Level) (rs : List Retrieval) : List Event :=
+  runTop rule bottom levels ++
+    match (run rule bottom 0 [] levels).out with
+    | some e => retrievals rule 0 (seen e) rs
+    | none => rs.map fun _ => Event.result none      -- the chain returned: every later consumer gets the value
+
+/-- reference: every later consumer sees the same exception with the caller's frame followed by the frames of the
+    task levels it crosses NOW (one more for every new task put on top), ending at the raising frame - nothing of
+    what an earlier consumer saw -/
+def refRetrievals : Nat → Nat → List Frame → List Retrieval → List Event
+  | _, _, _, [] => []
+  | i, tok, fs, r :: rs =>
+    let fs' := match r with
+      | .direct => fs
+      | .viaTask _ => .task (againLv i) :: fs
+    refResult (some (tok, fs')) :: refRetrievals (i + 1) tok fs' rs
+
+def refAgain (bottom : Bottom) (levels : List Level) (rs : List Retrieval) : List Event :=
+  match ref bottom 0 levels with
+  | some (tok, fs) => refRetrievals 0 tok fs rs
+  | none => rs.map fun _ => Event.result none
+
+def refTopAgain (bottom : Bottom) (levels : List Level) (rs : List Retrieval) : List Event :=
+  refTop bottom levels ++ refAgain bottom levels rs
+
+/-- diagnosis of one later result against the reference one -/
+def retrievalClause : Event → Event → String
+  | .result none, .result none => "ok"
+  | .result (some (tok', raw', _, fmt')), .result (some (tok, raw, vis, fmt)) =>
+    if tok != tok' then "retrieval-wrong-exception"
+    else if raw != raw' then "retrieval-glued-traceback"
+    else if vis != raw then "retrieval-extract-tb"
+    else if fmt != fmt' then "retrieval-format-error-frames"
+    else "ok"
+  | .result (some _), .result none => "retrieval-exception-lost"
+  | .result none, .result (some _) => "retrieval-unexpected-exception"
+  | _, _ => "retrieval-not-a-result"
+
+def retrievalsWhy : List Event → List Event → String
+  | [], [] => "ok"
+  | [], _ :: _ => "retrieval-unexpected-event"
+  | _ :: _, [] => "retrieval-missing"
+  | e :: es, g :: gs =>
+    let c := retrievalClause e g
+    if c == "ok" then retrievalsWhy es gs else c
+
+/-- `Spec.C18` (glue part, with later retrievals): the implementation's events ARE the reference events; the name of
+    the first offence otherwise (the chain's own events are judged by `glueClause`) -/
+def againClause (bottom : Bottom) (levels : List Level) (rs : List Retrieval) (events : List Event) : String :=
+  if events == refTopAgain bottom levels rs then "ok"
+  else
+    let n := (refTop bottom levels).length
+    let c := glueClause bottom levels (events.take n)
+    if c != "ok" then c
+    else
+      let w := retrievalsWhy (refAgain bottom levels rs) (events.drop n)
+      if w == "ok" then "not-the-reference-events" else w
+
 /-! ## 3. str / repr / dump as total functions of an abstract lifecycle state -/
 
 inductive ValKind where
